@@ -1,5 +1,6 @@
 (* C11 — rule application is deterministic under any match or insertion order.  Statements only. *)
 Require Import RIO.Base RIO.ActionModel RIO.ActionSpec RIO.ActionProofs.
+Require Import RIO.OrderTie RIOGen.ExtRuleOrder.
 Require Import RIO.Prefix RIO.Route RIO.Tree RIO.TreeProofs RIO.TreeInst RIO.Matchers RIO.MatcherSpec RIO.PathProofs RIO.RouterSpec RIO.RouterHist RIO.RouterProofs.
 
 (* the action depends only on the SET of matched rules: any permutation of a duplicate-free match
@@ -37,7 +38,17 @@ Example C11_example :
   /\ fst (get_status_code (from_routes_rule [a; b] None None []) 0) = 301%N.
 Proof. cbv zeta. split; [repeat constructor; cbn; intuition discriminate|]. vm_compute. auto. Qed.
 
+(* ---- TIE TO THE SOURCE (translator): the sort keys lifted from `impl Ord for Rule` (src/api/rule.rs) on every run —
+   together with the checks that Route::cmp delegates to the rule and that Action::from_routes_rule sorts the whole list
+   before folding it — give the order the action model uses (ActionModel.rule_before, the order of sort_rules). *)
+Theorem C11_tables_rule_order : forall a b : rule, before_by ext_rule_order a b = rule_before a b.
+Proof.
+  intros a b. replace ext_rule_order with [(s_rank, true); (s_id, true)] by (vm_compute; reflexivity).
+  apply rule_before_is_rank_desc_id_desc.
+Qed.
+
 Print Assumptions C11_permutation.
 Print Assumptions C11_order_determined.
 Print Assumptions C11_order_is_rank_then_id.
 Print Assumptions C11_insertion_order.
+Print Assumptions C11_tables_rule_order.
